@@ -438,6 +438,15 @@ func randBytes(rng *rand.Rand, n int) []byte {
 	return b
 }
 
+// shortSecret asks refHandshake for a Diffie-Hellman secret S whose first byte(s) are zero (one handshake in
+// 256 by chance): S enters every hash as a 96-byte string, leading zeros included. When storrent is the
+// client the harness has storrent's public key before it chooses its own private one and searches for a
+// suitable one; when storrent is the server the harness cannot choose, so it gives up a handshake whose
+// secret is not short (Err = errNotShort) and the caller tries again on a fresh connection.
+var shortSecret = false
+
+const errNotShort = "secret not short"
+
 // refHandshake plays refwire against storrent.  role = storrent's role.
 // val = crypto_provide (storrent is the server) or crypto_select (client).
 func refHandshake(h *hrun, role string, val uint32, rng *rand.Rand) *refPeer {
@@ -467,6 +476,10 @@ func refHandshake(h *hrun, role string, val uint32, rng *rand.Rand) *refPeer {
 		}
 		if !h.waitFor(func(b []byte) bool { return len(b) >= 96 }) {
 			p.Err = "closed before Yb"
+			return p
+		}
+		if shortSecret && refwire.MSEShared(priv, h.slice(0, 96))[0] != 0 {
+			p.Err = errNotShort
 			return p
 		}
 		ini.SetPeerKey(h.slice(0, 96))
@@ -517,6 +530,20 @@ func refHandshake(h *hrun, role string, val uint32, rng *rand.Rand) *refPeer {
 	if !h.waitFor(func(b []byte) bool { return len(b) >= 96 }) {
 		p.Err = "closed before Ya"
 		return p
+	}
+	if shortSecret {
+		ya := h.slice(0, 96)
+		found := false
+		for try := 0; try < 20000 && !found; try++ {
+			cand := refwire.MSEPrivate(randBytes(rng, 20))
+			if refwire.MSEShared(cand, ya)[0] == 0 {
+				rsp.Priv, found = cand, true
+			}
+		}
+		if !found {
+			p.Err = errNotShort
+			return p
+		}
 	}
 	rsp.SetPeerKey(h.slice(0, 96))
 	if h.write(rsp.Step2()) != nil {
@@ -1687,6 +1714,50 @@ func faultCase(c *vk.C, role string, wp sizePattern, failAt int, kind string, rn
 	}
 }
 
+// shortSecretCase: a complete MSE + BT handshake and a data exchange in both directions with a secret that
+// starts with a zero byte.
+func shortSecretCase(c *vk.C, role string, rng *rand.Rand) {
+	shortSecret = true
+	defer func() { shortSecret = false }()
+	var rs *refStream
+	var why string
+	tries := 0
+	for ; tries < 6000; tries++ {
+		rs, why = openRef(role, rng)
+		if rs != nil || !strings.Contains(why, errNotShort) {
+			break
+		}
+	}
+	c.Count("short_secret_attempts", int64(tries+1))
+	rep := map[string]any{"storrent_role": role, "attempts": tries + 1}
+	if rs == nil {
+		if strings.Contains(why, errNotShort) {
+			c.Inconclusive("no short secret in 6000 attempts")
+			return
+		}
+		c.Violation("interop", "interop-fail short-secret "+role, "with a Diffie-Hellman secret whose first byte is zero the handshake against the independent implementation fails: "+why, rep)
+		return
+	}
+	defer rs.close()
+	c.Count("short_secret_handshakes", 1)
+	d1, d2 := content(rng.Uint64(), 5000), content(rng.Uint64(), 5000)
+	var e1, e2 error
+	var got2 []byte
+	var wg sync.WaitGroup
+	wg.Add(3)
+	go func() { defer wg.Done(); _, e1 = rs.st.Conn.Write(d1) }()
+	go func() { defer wg.Done(); _, e2 = rs.hc.Write(rs.p.enc.Apply(d2)) }()
+	go func() {
+		defer wg.Done()
+		got2, _ = readN(io.MultiReader(bytes.NewReader(rs.st.Init), rs.st.Conn), len(d2), sizePattern{"prng", 0}, rand.New(rand.NewPCG(1, 2)))
+	}()
+	dec, ok := rs.p.recv(len(d1))
+	wg.Wait()
+	if e1 != nil || e2 != nil || !ok || !bytes.Equal(dec, d1) || !bytes.Equal(got2, d2) {
+		c.Violation("interop", "stream-corrupt short-secret "+role, fmt.Sprintf("after a handshake with a short secret the streams do not carry what was written (write errors %v %v)", e1, e2), rep)
+	}
+}
+
 // concurrentFaultCase: a second writer calls Write while the first one is inside the underlying write that
 // fails. The second writer's call begins after the failure has begun, so it must not succeed, and the wire
 // must still decrypt to a prefix of what the first writer wrote.
@@ -1815,6 +1886,19 @@ func runStream(t *testing.T, r *vk.Run, race bool, base int) {
 			refCase(c, []string{"server", "client"}[k/2%2], prng, prng, full, rng)
 		}
 		c.FP(vk.Hash64("prng", k%4, k), true)
+		c.End()
+	}
+	// Diffie-Hellman secrets with a leading zero byte, both roles
+	for k := 0; k < r.Env.N(6, 60); k++ {
+		i := idx
+		idx++
+		if !r.Mine(i) {
+			continue
+		}
+		role := []string{"client", "server"}[k%2]
+		c := r.Begin(i, map[string]any{"part": "stream", "mode": "short-secret", "storrent_role": role})
+		shortSecretCase(c, role, r.Env.Rng(i))
+		c.FP(vk.Hash64("short-secret", role, k), true)
 		c.End()
 	}
 	if race {
